@@ -12,6 +12,8 @@ random sub-family in random order (still valid cuts); None restores the full fam
 import re
 
 FAMILY_RNG = None
+LAST_FAMILY = None   # the family returned by the last call (read by the C04 oracle)
+LAST_GATES = None
 __version__ = 'shim'
 
 _LINE = re.compile(r'^\s*([^=\s]+)\s*=\s*([A-Za-z_0-9]+)\s*\((.*)\)\s*$')
@@ -85,4 +87,28 @@ def enumerate_cuts(bench_text, cut_size, cut_limit, fanin_limit):
             FAMILY_RNG.shuffle(rest)
             family = rest + [trivial]
         out[n] = family
+    global LAST_FAMILY, LAST_GATES
+    LAST_FAMILY, LAST_GATES = out, dict(gates)
     return out
+
+
+def family_is_closed(family=None, gates=None):
+    """every node strictly inside the cone of a listed cut has itself a listed cut inside that cut
+    (minimize_subcircuits collects the cone of a cut from the sub-cuts of the cone's nodes)"""
+    family = LAST_FAMILY if family is None else family
+    gates = LAST_GATES if gates is None else gates
+    for n, cuts in family.items():
+        for cut in cuts:
+            cs = set(cut)
+            if cs == {n}:
+                continue
+            todo, seen = [n], set()
+            while todo:
+                x = todo.pop()
+                if x in seen or x in cs:
+                    continue
+                seen.add(x)
+                if not any(set(c) <= cs for c in family.get(x, [])):
+                    return False
+                todo += gates.get(x, [])
+    return True
